@@ -1,6 +1,6 @@
 (* C01 — Generated NumPy rhs computes exactly the derivatives the model text defines.
    Theorems only; every proof is [exact <lemma of the development>]. *)
-From GX Require Import Base Expr Topo KahnSound Ode OrderSound Target Sem Codegen Load Valid MirrorValid LoadWf Run Carriers Examples.
+From GX Require Import Base Expr Topo KahnSound Ode OrderSound Target Sem Codegen Load Valid MirrorValid LoadWf Run Carriers Examples Singular.
 Open Scope string_scope.
 Open Scope list_scope.
 
@@ -120,3 +120,12 @@ Example C01_example_is_accepted :
   /\ reserved_free ex_ode ex_inp false = true
   /\ wf_gen ex_ode ex_ss false = true.
 Proof. vm_compute. repeat split. Qed.
+
+(* a right-hand side that is a relation is generated (since the repairs 3a918ce / 202f462) as the conditional
+   Conditional(relation, 1, 0): the same value, in every carrier in which relations give 1 or 0 and selection picks accordingly
+   (the reals are one: RealsC.ROps_sel) *)
+Theorem C01_a_relation_and_its_indicator_conditional_have_the_same_value :
+  forall (T : Type) (N : NumOps T), SelLaws N ->
+    forall rho r a b, eval N rho (ECond (ERel r a b) e_one e_zero) = eval N rho (ERel r a b).
+Proof. exact @indicator_conditional_is_the_relation. Qed.
+Print Assumptions C01_a_relation_and_its_indicator_conditional_have_the_same_value.
